@@ -2,7 +2,7 @@ from props import KERNEL_TB, HARNESS_TB
 
 PROP = dict(
     title="Oracle price averaging",
-    lean_modules=["Comdex.Props.C17", "Comdex.Props.C17Feed"],
+    lean_modules=["Comdex.Props.C17", "Comdex.Props.C17Feed", "Comdex.Props.C17Reconf"],
     namespaces=["Comdex.C17"],
     required_theorems=["Comdex.C17.no_panic", "Comdex.C17.refines_spec", "Comdex.C17.active_mean",
                        "Comdex.C17.active_only_after_N_positive", "Comdex.C17.zero_sample_deactivates",
@@ -12,8 +12,20 @@ PROP = dict(
                        "Comdex.C17.discard_clears_every_window_first", "Comdex.C17.no_sampling_block_changes_nothing",
                        "Comdex.C17.unvalidated_feed_refuses_every_valuation", "Comdex.C17.band_validation_iff_new_request",
                        "Comdex.C17.band_discard_only_after_long_outage", "Comdex.C17.band_discard_when_long_outage",
-                       "Comdex.C17.band_short_outage_forgotten"],
+                       "Comdex.C17.band_short_outage_forgotten",
+                       "Comdex.C17.reconfigure_restarts_every_window", "Comdex.C17.every_segment_is_a_fresh_run",
+                       "Comdex.C17.no_oob_across_reconfigurations", "Comdex.C17.segment_refines_spec", "Comdex.C17.segment_active_mean",
+                       "Comdex.C17.activation_needs_N_fresh_positive", "Comdex.C17.chain_never_panics", "Comdex.C17.chain_window_history",
+                       "Comdex.C17.chain_activation_needs_N_fresh_positive", "Comdex.C17.unconfigured_chain_only_switches_off",
+                       "Comdex.C17.stale_full_window_not_wf", "Comdex.C17.stale_window_oob_counterexample",
+                       "Comdex.C17.stale_window_early_activation_counterexample", "Comdex.C17.delete_by_script_keeps_windows",
+                       "Comdex.C17.chain_stale_counterexample", "Comdex.C17.strict_readers_fail_closed",
+                       "Comdex.C17.readers_refuse_after_reconfigure", "Comdex.C17.stale_tolerant_readers_counterexample",
+                       "Comdex.C17.stale_tolerant_readers_answer_iff"],
     harness_tests=["TestC17", "TestC17Feed"],
+    coverage_files=["x/bandoracle/keeper/gov.go", "x/bandoracle/handler.go", "x/bandoracle/oracle.go", "x/bandoracle/genesis.go", "x/market/genesis.go"],
+    monitors=["wf", "no_panic", "spec", "active_only_after_N", "reconfigure_clears", "fail_closed", "stale_reader_values_inactive",
+              "feed_by_rank", "unvalidated_refused", "band_validation", "band_discard"],
     trusted_base=[KERNEL_TB, HARNESS_TB,
                   "Model/Twa.lean is hand-written from x/market/keeper/oracle.go:67-170 and x/market/abci.go:24-60; "
                   "tied by running real UpdatePriceList/GetLatestPrice/CalcAssetPrice on a real store and comparing the "
@@ -21,15 +33,25 @@ PROP = dict(
                   "Model/Feed.lean is hand-written from x/market/abci.go:15-75 and x/bandoracle/abci.go + oracle.go (request id / result / "
                   "discard bookkeeping); tied by running the REAL begin-blockers of both modules and the real IBC acknowledgment / response "
                   "handlers of the band module and comparing the band state and every stored window after every block",
-                  "protobuf (de)serialisation, the KV store and the IBC send of FetchPrice (no effect on this state) are exercised, not modelled"],
+                  "the governance (re)configuration (x/bandoracle/keeper/oracle.go:167-177 AddFetchPriceRecords incl. its delete loop), the asset-list "
+                  "re-arm (x/asset/keeper/asset.go:212,278,322) and the genesis import of windows (x/market/genesis.go, x/bandoracle/genesis.go) are "
+                  "hand-written into Model/Feed.lean (Chain / ChainOp); tied by running the REAL FetchPriceProposal handler (after ValidateBasic), the real "
+                  "asset proposal handlers and the real InitGenesis in the middle of the begin-blocker histories and comparing the band state and ALL stored "
+                  "windows (GetAllTwa) after each; Model/Feed.lean Reader.answers is hand-written from the seven readers named there and compared with the "
+                  "real keepers' answers on every feed.reader line",
+                  "protobuf (de)serialisation, the KV store and the IBC send of FetchPrice (no effect on this state; never executed: no channel capability) "
+                  "are not modelled"],
     assumptions=["block heights are positive (the chain starts at height 1)",
-                 "the window size N is fixed over a history (as the property states) and N >= 1",
+                 "the window size N is fixed between two fetch-price proposals (the property's premise; Props/C17Reconf proves the chain keeps it by "
+                 "deleting every window at each proposal) and N >= 1 (FetchPriceProposal.ValidateBasic, exercised)",
                  "asset ids are distinct (they are store keys)"],
     rule="each case is one generated sample sequence (window size 1-12, accepted gap, zero/boundary/MaxUint64/repeated samples, "
          "height gaps around the accepted gap, discard-all and deactivate events, reader calls) run on the real market keeper; "
          "plus generated feeds (1-6 assets with and without oracle pricing, result lists shorter / longer than the asset list, zero and maximal "
-         "rates, oracle outages shorter and longer than the accepted gap, sampling and non-sampling blocks, feed never configured) through the "
-         "real begin-blockers; distinct = distinct trace text, non-trivial = at least one call returned normally",
+         "rates, oracle outages shorter and longer than the accepted gap, sampling and non-sampling blocks, feed never configured; 0-3 fetch-price "
+         "proposals per feed with the window size growing / shrinking / equal at every ring phase and script ids equal / unequal to asset ids, asset "
+         "proposals adding assets and toggling the oracle flag, genesis imports of windows of any shape, seven real consumers) through the "
+         "real begin-blockers and proposal handlers; distinct = distinct trace text, non-trivial = at least one call returned normally",
 )
 
 META = dict(
@@ -42,8 +64,13 @@ META = dict(
          "result list / asset list, gives every oracle-priced asset exactly one update with the rate at its rank (every other window untouched), "
          "clears every window first when a discard is pending, changes nothing outside sampling blocks, switches every listed price off (refused to "
          "consumers) while the feed is not validated; the band side validates iff a new request was acknowledged and orders a discard only after an "
-         "outage of at least the accepted gap. The model is tied to the code by replaying generated sample "
+         "outage of at least the accepted gap. Across governance: a fetch-price proposal deletes every stored window, so the window stored after any "
+         "history with reconfigurations is the fresh run of the last segment under that segment's N (no panic, well-formed for the N in force, sliding-window "
+         "spec, activation only after N' fresh positive samples) - per window and, through a proved projection, for every asset of every chain history from "
+         "any genesis; without the deletion a full window is well-formed for no other N (counterexamples: out-of-window write, panic, early activation). "
+         "The four readers that test the activity flag fail closed; three reward-weighting readers do not (finding D35). "
+         "The model is tied to the code by replaying generated sample "
          "sequences on the real keeper and comparing every stored record field by field.",
     note="Trusted: Lean kernel (axioms propext, Quot.sound only), the hand-written model's faithfulness as far as the "
-         "correspondence run exercises it, heights>0, fixed N.",
+         "correspondence run exercises it, heights>0, N fixed between proposals.",
 )
